@@ -22,6 +22,7 @@
 
 #include "fileops.h"
 #include <string.h>
+#include "core/ascon-verif.h"
 
 #if defined(USE_WINDOWS_FDS)
 /* Windows gives POSIX functions "_" names, which is annoying */
@@ -132,7 +133,9 @@ int safe_file_read(SAFEFILE *file, void *data, size_t len)
     unsigned char *d = (unsigned char *)data;
     int result = 0;
     int temp;
-    for (;;) {
+    for (;;)
+    ASCON_VERIF_LOOP(safe_file_read)
+    {
         temp = read(file->fd, d, len);
         if (temp < 0) {
             /* Handle signal interruptions and non-blocking I/O */
@@ -163,7 +166,9 @@ int safe_file_write(SAFEFILE *file, const void *data, size_t len)
     const unsigned char *d = (const unsigned char *)data;
     int result = 0;
     int temp;
-    for (;;) {
+    for (;;)
+    ASCON_VERIF_LOOP(safe_file_write)
+    {
         temp = write(file->fd, d, len);
         if (temp < 0) {
             /* Handle signal interruptions and non-blocking I/O */
